@@ -1,5 +1,331 @@
-//! Conformance harness for specification-growth module g06 (see /verif/DESIGN.md 12.6).
+//! Conformance harness for specification-growth module G06 (shell options
+//! and positional parameters as state; set, shift, $-, the shell's command
+//! line), see spec/SetOpts.tla.
+//!
+//! `yv-g06 replay --in GEN.ndjson --out MISMATCHES.ndjson [--threads T]`
+//!     spec -> impl: every line of GEN is a state printed by Gen_SetOpts
+//!     (command line, witness, and for every operation of the fan the events
+//!     SetOpts.tla prescribes).  For every (state, operation) the real shell
+//!     is started on the simulated OS with that command line and the script
+//!     <witness; operation> and what it shows is compared; so is the
+//!     catalogue of command lines.
+//! `yv-g06 random --runs N --len L --out TRACE.ndjson [--threads T]`
+//!     impl -> spec: N seeded random command lines x operation sequences are
+//!     run; the observations are written for Trace_SetOpts to judge.
+//! `yv-g06 redo --in RECORDS.ndjson --out OUT.ndjson`
+//!     re-runs mismatch records (compared again) or random records
+//!     (recorded again for TLC).
+mod genr;
+mod run;
+
+use genr::Op;
+use rand::SeedableRng;
+use run::{Observed, compare, run_case, strs};
+use serde_json::{Value, json};
+use std::collections::BTreeMap;
+use std::io::{BufRead, Write};
+use std::sync::Mutex;
+use yvcommon::util::{self, opt, opt_usize};
+
+#[derive(Default)]
+struct Stats {
+    states: usize,
+    cases: usize,
+    starts: usize,
+    unspec: usize,
+    mismatches: usize,
+    nontrivial: usize,
+    by_kind: BTreeMap<String, usize>,
+    by_effect: BTreeMap<String, usize>,
+    samples: Vec<Value>,
+}
+
+impl Stats {
+    fn merge(&mut self, o: Stats) {
+        self.states += o.states;
+        self.cases += o.cases;
+        self.starts += o.starts;
+        self.unspec += o.unspec;
+        self.mismatches += o.mismatches;
+        self.nontrivial += o.nontrivial;
+        for (k, v) in o.by_kind {
+            *self.by_kind.entry(k).or_default() += v;
+        }
+        for (k, v) in o.by_effect {
+            *self.by_effect.entry(k).or_default() += v;
+        }
+        for s in o.samples {
+            if self.samples.len() < 8 {
+                self.samples.push(s);
+            }
+        }
+    }
+}
+
+fn kind_of(lines: &[String]) -> &'static str {
+    let l = lines.first().map(|s| s.as_str()).unwrap_or("");
+    let l = l.strip_prefix("command ").unwrap_or(l);
+    if l.starts_with("set") {
+        "set"
+    } else if l.starts_with("shift") {
+        "shift"
+    } else if l.starts_with("f()") {
+        "call"
+    } else if l.starts_with("x=$(") {
+        "listing"
+    } else {
+        "other"
+    }
+}
+
+/// What the specification prescribes for the case, as a class (evidence only).
+fn effect_of(s: &Value, evs: &[Value]) -> &'static str {
+    if evs.iter().any(|e| e["t"] == "x" && e["may"] == false) {
+        return "shell-exits";
+    }
+    if evs.iter().any(|e| e["t"] == "x") {
+        return "may-exit";
+    }
+    let last = evs.iter().rev().find(|e| e["t"] == "p");
+    match last {
+        None => "none",
+        Some(p) => {
+            if p["st"].as_i64().unwrap_or(0) != 0 {
+                "error-status"
+            } else if p["on"] != s["on"] && p["pos"] != s["pos"] {
+                "options+positional"
+            } else if p["on"] != s["on"] {
+                "options"
+            } else if p["pos"] != s["pos"] {
+                "positional"
+            } else {
+                "unchanged"
+            }
+        }
+    }
+}
+
+fn script_of(pre: &[String], lines: &[String]) -> String {
+    let mut all = vec![genr::OBS_LINE.to_string()];
+    all.extend(pre.iter().cloned());
+    all.extend(lines.iter().cloned());
+    all.join("\n") + "\n"
+}
+
+#[allow(clippy::too_many_arguments)]
+fn do_state(line: &Value, fanlines: &[Vec<String>], biglines: &[Vec<String>], out: &Mutex<Box<dyn Write + Send>>) -> Stats {
+    let mut st = Stats { states: 1, ..Default::default() };
+    let argv = strs(&line["argv"]);
+    let pre = strs(&line["prelines"]);
+    let preevs: Vec<Value> = line["preevs"].as_array().cloned().unwrap_or_default();
+    let empty = vec![];
+    for (fam, lines_of, arr) in [("core", fanlines, line["fan"].as_array().unwrap_or(&empty)), ("big", biglines, line["big"].as_array().unwrap_or(&empty))] {
+        for (i, c) in arr.iter().enumerate() {
+            if c["unspec"].as_bool().unwrap_or(false) {
+                st.unspec += 1;
+                continue;
+            }
+            let lines = &lines_of[i];
+            let mut exp = preevs.clone();
+            let evs: Vec<Value> = c["evs"].as_array().cloned().unwrap_or_default();
+            exp.extend(evs.iter().cloned());
+            let script = script_of(&pre, lines);
+            let obs = run_case(&argv, &script);
+            st.cases += 1;
+            *st.by_kind.entry(kind_of(lines).into()).or_default() += 1;
+            let eff = effect_of(&line["s"], &evs);
+            *st.by_effect.entry(eff.into()).or_default() += 1;
+            if eff != "unchanged" {
+                st.nontrivial += 1;
+            }
+            if st.samples.len() < 2 && (i % 97 == 5) {
+                st.samples.push(json!({"argv": argv, "script": script, "expected_events": evs.len(), "observed": obs.to_json()}));
+            }
+            if let Some((at, field)) = compare("run", &exp, &obs) {
+                st.mismatches += 1;
+                let rec = json!({"what": "op", "fam": fam, "root": line["root"], "argv": argv, "s": line["s"], "prelines": pre,
+                                 "lines": lines, "exp": exp, "obs": obs.to_json(), "at": at, "field": field});
+                let mut o = out.lock().unwrap();
+                writeln!(o, "{rec}").unwrap();
+            }
+        }
+    }
+    if let Some(starts) = line["starts"].as_array() {
+        for c in starts {
+            let k = c["k"].as_str().unwrap_or("");
+            if k == "unspec" {
+                st.unspec += 1;
+                continue;
+            }
+            let argv = strs(&c["argv"]);
+            let script = script_of(&[], &[]);
+            let obs = run_case(&argv, &script);
+            st.starts += 1;
+            let exp: Vec<Value> = c["evs"].as_array().cloned().unwrap_or_default();
+            if let Some((at, field)) = compare(k, &exp, &obs) {
+                st.mismatches += 1;
+                let rec = json!({"what": "start", "fam": "start", "argv": argv, "k": k, "prelines": [], "lines": [],
+                                 "exp": exp, "obs": obs.to_json(), "at": at, "field": field});
+                let mut o = out.lock().unwrap();
+                writeln!(o, "{rec}").unwrap();
+            }
+        }
+    }
+    st
+}
+
+fn lines_table(v: &Value) -> Vec<Vec<String>> {
+    v.as_array().map(|a| a.iter().map(strs).collect()).unwrap_or_default()
+}
+
+fn replay(args: &[String]) {
+    let path = opt(args, "--in").expect("--in");
+    let threads = opt_usize(args, "--threads", 8);
+    // pass 1: the line that carries the script lines of the fans
+    let mut fanlines = vec![];
+    let mut biglines = vec![];
+    {
+        let f = std::io::BufReader::new(std::fs::File::open(path).expect("open --in"));
+        for l in f.lines() {
+            let l = l.unwrap();
+            if l.contains("\"fanlines\":[[") {
+                let v: Value = serde_json::from_str(&l).expect("json");
+                fanlines = lines_table(&v["fanlines"]);
+                biglines = lines_table(&v["biglines"]);
+                break;
+            }
+        }
+    }
+    if fanlines.is_empty() {
+        eprintln!("yv-g06: no line with the fan's script lines");
+        std::process::exit(2);
+    }
+    let out: Mutex<Box<dyn Write + Send>> = Mutex::new(Box::new(std::io::BufWriter::new(
+        std::fs::File::create(opt(args, "--out").expect("--out")).expect("create --out"),
+    )));
+    let input = Mutex::new(std::io::BufReader::new(std::fs::File::open(path).expect("open --in")).lines());
+    let total = Mutex::new(Stats::default());
+    std::thread::scope(|s| {
+        for _ in 0..threads {
+            s.spawn(|| {
+                util::quiet_panics();
+                loop {
+                    let l = { input.lock().unwrap().next() };
+                    let Some(l) = l else { break };
+                    let l = l.unwrap();
+                    if l.trim().is_empty() {
+                        continue;
+                    }
+                    let v: Value = serde_json::from_str(&l).expect("json");
+                    let st = do_state(&v, &fanlines, &biglines, &out);
+                    total.lock().unwrap().merge(st);
+                }
+            });
+        }
+    });
+    out.lock().unwrap().flush().unwrap();
+    let t = total.into_inner().unwrap();
+    println!(
+        "{}",
+        json!({"states": t.states, "cases": t.cases, "starts": t.starts, "unspec": t.unspec, "mismatches": t.mismatches,
+               "nontrivial": t.nontrivial, "by_kind": t.by_kind, "by_effect": t.by_effect, "samples": t.samples,
+               "fan": fanlines.len(), "bigfan": biglines.len()})
+    );
+}
+
+fn record(id: usize, argv: &[String], ops: &[Op]) -> Value {
+    let script = genr::script(ops);
+    let obs = run_case(argv, &script);
+    json!({"id": id, "argv": argv, "ops": ops.iter().map(|o| o.to_json()).collect::<Vec<_>>(), "script": script,
+           "kind": obs.kind, "evs": obs.evs, "exit": obs.exit, "done": obs.done, "outcome": obs.outcome})
+}
+
+fn random(args: &[String]) {
+    let runs = opt_usize(args, "--runs", 1000);
+    let len = opt_usize(args, "--len", 5);
+    let threads = opt_usize(args, "--threads", 8);
+    let seed = util::seed();
+    let ids: Vec<usize> = (0..runs).collect();
+    let next = std::sync::atomic::AtomicUsize::new(0);
+    let results: Mutex<Vec<Option<Value>>> = Mutex::new(vec![None; runs]);
+    std::thread::scope(|s| {
+        for _ in 0..threads {
+            s.spawn(|| {
+                util::quiet_panics();
+                loop {
+                    let i = next.fetch_add(1, std::sync::atomic::Ordering::SeqCst);
+                    if i >= ids.len() {
+                        break;
+                    }
+                    let mut rng = rand::rngs::StdRng::seed_from_u64(seed.wrapping_mul(0x9E37_79B9_7F4A_7C15).wrapping_add(i as u64));
+                    let (argv, portable) = genr::random_argv(&mut rng);
+                    let ops = genr::random_ops(&mut rng, len, portable);
+                    let rec = record(i, &argv, &ops);
+                    results.lock().unwrap()[i] = Some(rec);
+                }
+            });
+        }
+    });
+    let mut out = util::open_out(args);
+    let mut steps = 0usize;
+    let mut kinds: BTreeMap<String, usize> = BTreeMap::new();
+    let mut events = 0usize;
+    for r in results.into_inner().unwrap().into_iter().flatten() {
+        steps += r["ops"].as_array().map(|a| a.len()).unwrap_or(0);
+        events += r["evs"].as_array().map(|a| a.len()).unwrap_or(0);
+        *kinds.entry(r["kind"].as_str().unwrap_or("").to_string()).or_default() += 1;
+        writeln!(out, "{r}").unwrap();
+    }
+    out.flush().unwrap();
+    println!("{}", json!({"runs": runs, "ops": steps, "events": events, "kinds": kinds}));
+}
+
+fn redo(args: &[String]) {
+    let input = util::open_in(args);
+    let mut out = util::open_out(args);
+    let mut bad = 0usize;
+    let mut n = 0usize;
+    for l in input.lines() {
+        let l = l.unwrap();
+        if l.trim().is_empty() {
+            continue;
+        }
+        let v: Value = serde_json::from_str(&l).expect("json");
+        n += 1;
+        if v.get("ops").is_some() {
+            let ops: Vec<Op> = v["ops"].as_array().map(|a| a.iter().map(Op::from_json).collect()).unwrap_or_default();
+            let rec = record(v["id"].as_u64().unwrap_or(0) as usize, &strs(&v["argv"]), &ops);
+            writeln!(out, "{rec}").unwrap();
+        } else {
+            let argv = strs(&v["argv"]);
+            let script = script_of(&strs(&v["prelines"]), &strs(&v["lines"]));
+            let obs: Observed = run_case(&argv, &script);
+            let exp: Vec<Value> = v["exp"].as_array().cloned().unwrap_or_default();
+            let kind = if v["what"] == "start" { v["k"].as_str().unwrap_or("run").to_string() } else { "run".to_string() };
+            let verdict = compare(&kind, &exp, &obs);
+            if verdict.is_some() {
+                bad += 1;
+            }
+            let text = match &verdict {
+                None => "as prescribed".to_string(),
+                Some((at, f)) => format!("deviates at expected event {at}: {f}"),
+            };
+            writeln!(out, "{}", json!({"argv": argv, "script": script, "verdict": text, "obs": obs.to_json()})).unwrap();
+        }
+    }
+    out.flush().unwrap();
+    println!("{}", json!({"records": n, "bad": bad}));
+}
+
 fn main() {
-    eprintln!("yv-g06: not implemented yet");
-    std::process::exit(2);
+    let args: Vec<String> = std::env::args().collect();
+    match args.get(1).map(|s| s.as_str()) {
+        Some("replay") => replay(&args[2..]),
+        Some("random") => random(&args[2..]),
+        Some("redo") => redo(&args[2..]),
+        _ => {
+            eprintln!("usage: yv-g06 replay|random|redo ...");
+            std::process::exit(2);
+        }
+    }
 }
